@@ -245,7 +245,10 @@ pub fn masks(d: &Dec, c: &Case, native_flags: u64) -> Mask {
     if d.has_prefix(0x67) && (crate_is_str(mn) || mn.starts_with("loop") || matches!(mn, "jecxz" | "jcxz" | "jrcxz")) {
         tags.push("addr32".into());
     }
-    if d.has_prefix(0x66) && w != 16 && !d.ops.iter().any(|o| matches!(o, Op::Reg(r) if r.class == RegClass::Xmm)) {
+    if d.has_prefix(0x66) && d.rex & 8 != 0 && !d.ops.iter().any(|o| matches!(o, Op::Reg(r) if r.class == RegClass::Xmm)) {
+        // REX.W wins over 66h on the processor; capstone may report either size
+        tags.push("66h+rexw".into());
+    } else if d.has_prefix(0x66) && w != 16 && !d.ops.iter().any(|o| matches!(o, Op::Reg(r) if r.class == RegClass::Xmm)) {
         tags.push("66h".into());
     }
     // same register used twice
@@ -439,6 +442,9 @@ pub fn check_case(c: &Case, obs: &mut Obs) -> Result<(), Failure> {
             let sig = if let Some(why) = not_architectural(&d, &mn) {
                 // capstone reports inconsistent operand sizes for reserved prefix combinations
                 format!("C01|{}|*|{}|lift|sort-error", mode, why.split('(').next().unwrap_or(why))
+            } else if d.has_prefix(0x66) && d.rex & 8 != 0 {
+                // capstone reports a 16-bit operand although REX.W wins
+                format!("C01|{}|*|66h+rexw|lift|sort-error", mode)
             } else if cause == "addr32" {
                 format!("C01|{}|*|m(67h)|lift|sort-error", mode)
             } else {
